@@ -580,6 +580,19 @@ where
     }
 }
 
+impl<T> FastFixedOut<T> {
+    fn update_needed_len(&mut self) {
+        // The position advances by the sum of the per-frame steps,
+        // t_start + k * (t_end - t_start) / chunk_size for k = 1..=chunk_size.
+        let t_ratio = 1.0 / self.resample_ratio;
+        let t_ratio_end = 1.0 / self.target_ratio;
+        let frames = self.chunk_size as f64;
+        let advance = frames * t_ratio + 0.5 * (t_ratio_end - t_ratio) * (frames + 1.0);
+        self.needed_input_size =
+            (self.last_index + advance + POLYNOMIAL_LEN_U as f64).ceil() as usize;
+    }
+}
+
 impl<T> Resampler<T> for FastFixedOut<T>
 where
     T: Sample,
@@ -757,10 +770,7 @@ where
         let input_frames_used = self.needed_input_size;
         self.last_index = idx - self.current_buffer_fill as f64;
         self.resample_ratio = self.target_ratio;
-        self.needed_input_size = (self.last_index as f32
-            + self.chunk_size as f32 / self.resample_ratio as f32
-            + POLYNOMIAL_LEN_U as f32)
-            .ceil() as usize;
+        self.update_needed_len();
         trace!(
             "Resampling channels {:?}, {} frames in, {} frames out. Next needed length: {} frames, last index {}",
             active_channels_mask,
@@ -808,11 +818,7 @@ where
                 self.resample_ratio = new_ratio;
             }
             self.target_ratio = new_ratio;
-            self.needed_input_size = (self.last_index as f32
-                + self.chunk_size as f32
-                    / (0.5 * self.resample_ratio as f32 + 0.5 * self.target_ratio as f32))
-                .ceil() as usize
-                + POLYNOMIAL_LEN_U;
+            self.update_needed_len();
             Ok(())
         } else {
             Err(ResampleError::RatioOutOfBounds {
